@@ -205,46 +205,10 @@ def resolve_cond(c, ctx, defs):
             b = ('num', 1.5, '1.5E0')
         return ('rel', o, a, b, sp)
     if op in ('and', 'or') and len(c) == 3:
-        return unparenthesised((op, resolve_cond(c[1], ctx, defs), resolve_cond(c[2], ctx, defs)))
+        return (op, resolve_cond(c[1], ctx, defs), resolve_cond(c[2], ctx, defs))
     if op == 'not' and len(c) == 2:
-        return unparenthesised(('not', resolve_cond(c[1], ctx, defs)))
+        return ('not', resolve_cond(c[1], ctx, defs))
     return ('rel', '>', ('idx', 'THETA', (1,)), ('num', 0.0, '0'), '.GT.')
-
-
-def _first_rel(c):
-    while c[0] != 'rel':
-        c = c[1]
-    return c
-
-
-def unparenthesised(c):
-    """Re-associates a condition so that printing it needs no parentheses around a logical
-    sub-expression: pharmpy's abbreviated-code grammar has no parenthesised logical primary
-    (`(A.OR.B).AND.C` and `.NOT.(A.AND.B)` are refused with a syntax error, i.e. they are outside the
-    supported subset), whereas unparenthesised mixtures such as `A.OR.B.AND.C`, `.NOT.A.GT.B.AND.C` are
-    supported and exercise Fortran's operator precedence. The children are already in that form.
-    The rewriting changes the meaning of the *spec*, not of a program: any well-formed tree will do."""
-    k = c[0]
-    if k == 'not':
-        x = c[1]
-        if x[0] == 'not':
-            return x[1]
-        return ('not', _first_rel(x))
-    if k == 'and':
-        a, b = c[1], c[2]
-        if a[0] == 'or':  # (p.OR.q).AND.b -> p.OR.q.AND.b
-            return unparenthesised(('or', a[1], unparenthesised(('and', a[2], b))))
-        if b[0] == 'and':  # a.AND.(p.AND.q) -> a.AND.p.AND.q
-            return unparenthesised(('and', unparenthesised(('and', a, b[1])), b[2]))
-        if b[0] == 'or':  # a.AND.(p.OR.q) -> a.AND.p.OR.q
-            return unparenthesised(('or', unparenthesised(('and', a, b[1])), b[2]))
-        return c
-    if k == 'or':
-        a, b = c[1], c[2]
-        if b[0] == 'or':
-            return unparenthesised(('or', unparenthesised(('or', a, b[1])), b[2]))
-        return c
-    return c
 
 
 PFUNCS = {'PEXP': 'EXP', 'PLOG': 'LOG', 'PLOG10': 'LOG10', 'PSQRT': 'SQRT', 'PDZ': 'ABS', 'PZR': 'ABS', 'PNP': 'ABS', 'PHE': 'ABS', 'PNG': 'ABS'}
